@@ -15,7 +15,7 @@ META = {
     },
     "outside": "lists longer than 2, byte buffers longer than 3 inside shapes, more than 3 sessions; shapes the "
                "each-choice generator does not produce (combinations of non-default choices)",
-    "wall_budget_s": {"quick": 270, "thorough": 1500},
+    "wall_budget_s": {"quick": 270, "thorough": 840},
 }
 
 CORE = ("Startup", "GetRandom", "CreatePrimary", "GetCapability", "NV_Read", "PCR_Read", "StartAuthSession")
